@@ -37,7 +37,7 @@ def worker_init():
     clock.install([peg_parser.parser, peg_parser.subheader, peg_parser.tokenize, peg_parser.tokenizer])
 
 
-def measure(src, mode="exec", budget=int(3e7)):
+def measure(src, mode="exec", budget=int(3e7), py_version=None):
     """(ops, steps, outcome kind) of one parse with the counting token source"""
     from peg_parser.tokenize import generate_tokens
     from peg_parser.tokenizer import Tokenizer
@@ -64,7 +64,7 @@ def measure(src, mode="exec", budget=int(3e7)):
     def run():
         sys.setrecursionlimit(1_000_000)
         tok = Counting(generate_tokens(io.StringIO(src).readline))
-        parser = cls(tok)
+        parser = cls(tok, py_version=py_version) if py_version else cls(tok)
         clock.start(budget)
         try:
             try:
@@ -209,6 +209,25 @@ FAMILIES = {
 }
 
 # invalid variants: name -> transformation of a valid source
+# families parsed under a lowered py_version: the version-gated construct is accepted by the grammar and refused afterwards (a SyntaxError
+# is the expected outcome of the "valid" variant); whatever bookkeeping the version checks do must not disturb the packrat cache
+def _in_blocks(head, body, tail=""):
+    return lambda n: "".join(" " * i + head + "\n" for i in range(n)) + "".join(" " * n + l + "\n" for l in body.split("\n")) + tail
+
+
+FAMILIES.update({
+    "gated_type_in_ifs": (_in_blocks("if a:", "type X = int"), "nest"),
+    "gated_generic_def_in_ifs": (_in_blocks("if a:", "def f[T](x: T) -> T: pass"), "nest"),
+    "gated_except_star_in_ifs": (_in_blocks("if a:", "try:\n    pass\nexcept* E:\n    pass"), "nest"),
+    "gated_type_in_whiles": (_in_blocks("while a:", "type X[T] = list[T]"), "nest"),
+    "gated_class_in_defs": (_in_blocks("def g():", "class C[T]: pass"), "nest"),
+    "gated_type_in_trys": (lambda n: "".join(" " * i + "try:\n" for i in range(n)) + " " * n + "type X = int\n" + "".join(" " * i + "finally:\n" + " " * (i + 1) + "pass\n" for i in reversed(range(n))), "nest"),
+    "gated_types_flat": (lambda n: "type X = int\n" * n, "flat"),
+    "gated_generic_defs_flat": (lambda n: "def f[T](): pass\n" * n, "flat"),
+    "gated_type_in_with_items": (lambda n: "with " + ", ".join(f"c{i} as v{i}" for i in range(n)) + ":\n    type X = int\n", "flat"),
+})
+VERSIONED = {name: (3, 10) for name in FAMILIES if name.startswith("gated_")}
+
 INVALID = {
     "unclosed": lambda s: s.rstrip("\n").rstrip(")]}") + "\n",
     "extra_token": lambda s: s.rstrip("\n") + " 1 1\n",
@@ -240,7 +259,7 @@ def _wrong_closer(s, how):
 
 
 # families whose nesting is by indentation, not by brackets: finding F18a (diagnostic pass over nested *brackets*) never applies to them
-BLOCK_FAMILIES = {"blocks", "while_blocks", "with_items_nested", "def_nested", "try_blocks", "for_blocks", "class_blocks", "match_blocks"}
+BLOCK_FAMILIES = {"gated_type_in_ifs", "gated_generic_def_in_ifs", "gated_except_star_in_ifs", "gated_type_in_whiles", "gated_class_in_defs", "gated_type_in_trys", "blocks", "while_blocks", "with_items_nested", "def_nested", "try_blocks", "for_blocks", "class_blocks", "match_blocks"}
 
 
 # finding F18a is quadratic growth: a doubling multiplies the work by about four. Anything steeper (cubic: eight, exponential: unbounded), or a
@@ -282,9 +301,11 @@ def run_family(acc, name, variant, sizes):
                 acc.count("variant_not_applicable")
                 return
             src = src2
-        r = measure(src)
+        r = measure(src, py_version=VERSIONED.get(name))
         acc.evals += 1
         acc.count("parses")
+        if name in VERSIONED:
+            acc.count("parses_under_lowered_py_version")
         if r["kind"] in ("budget",):
             # a size whose parse exhausts the step budget although half the size completed
             acc.count("budget_exhausted")
@@ -293,7 +314,7 @@ def run_family(acc, name, variant, sizes):
         if r["kind"].startswith("other") or r["kind"] in ("recursion", "none"):
             acc.count("aborted_" + r["kind"])
             break
-        if variant == "valid" and r["kind"] != "tree":
+        if variant == "valid" and r["kind"] != ("syntax" if name in VERSIONED else "tree"):
             acc.count("valid_family_rejected")
             acc.seen("valid_families_rejected", name)
             break
